@@ -10,7 +10,8 @@
      step_re_noacts). *)
 From Coq Require Import ZArith List Bool Lia ZifyBool Permutation.
 From Tickit Require Import RectDefs RectProofs WinRectSet WinRectSetProofs WinDefs WinHist WinSpec
-  WinExposeProofs WinFlushProofs WinLogDisjoint WinScreenInv WinLocality WinPreserve WinReDefs.
+  WinExposeProofs WinFlushProofs WinLogDisjoint WinScreenInv WinLocality WinPreserve WinInput WinReDefs.
+From Tickit Require WinInputProofs.
 Import ListNotations.
 Local Open Scope Z_scope.
 Local Strategy 1000 [rsfuel].
@@ -18,12 +19,13 @@ Local Strategy 1000 [rsfuel].
 (* ------------------------------------------------------------------------------------ *)
 (* the loops as top-level functions                                                      *)
 
-Fixpoint expose_kids_re (rh : rhandler) (r : rect) (l : list wtree) (sb : root * rbuf) : root * rbuf :=
+Fixpoint expose_kids_re (rh : rhandler) (pid : Z) (r : rect) (l : list wtree) (sb : root * rbuf) : root * rbuf :=
   match l with
   | [] => sb
   | c :: rest =>
     let ci := t_info c in
-    if negb (vis_now (fst sb) (w_id ci)) then expose_kids_re rh r rest sb else
+    if negb (child_now (fst sb) pid (w_id ci)) then expose_kids_re rh pid r rest sb else
+    if negb (vis_now (fst sb) (w_id ci)) then expose_kids_re rh pid r rest sb else
     let sb' :=
       match r_intersect r (w_rect ci) with
       | Some ex =>
@@ -32,39 +34,44 @@ Fixpoint expose_kids_re (rh : rhandler) (r : rect) (l : list wtree) (sb : root *
         (fst sb2, rb_restore (snd sb2))
       | None => sb
       end in
-    expose_kids_re rh r rest (fst sb', rb_mask_rect (snd sb') (w_rect ci))
+    expose_kids_re rh pid r rest (fst sb', if child_now (fst sb') pid (w_id ci)
+                                            then rb_mask_rect (snd sb') (w_rect ci) else snd sb')
   end.
 
 Lemma do_expose_re_unfold rh i ch r sb :
-  do_expose_re rh (Node i ch) r sb = rh (w_id i) r (expose_kids_re rh r ch sb).
+  do_expose_re rh (Node i ch) r sb = rh (w_id i) r (expose_kids_re rh (w_id i) r ch sb).
 Proof.
   cbn [do_expose_re]. f_equal. revert sb.
   induction ch as [|c rest IH]; intros sb; [reflexivity|].
-  cbn [expose_kids_re]. destruct (negb (vis_now (fst sb) (w_id (t_info c)))); [apply IH|]. apply IH.
+  cbn [expose_kids_re]. destruct (negb (child_now (fst sb) (w_id i) (w_id (t_info c)))); [apply IH|].
+  destruct (negb (vis_now (fst sb) (w_id (t_info c)))); [apply IH|]. apply IH.
 Qed.
 
-Fixpoint log_kids_re (rh : rhandler) (r : rect) (l : list wtree) (sb : root * rbuf) : list (Z * rect) :=
+Fixpoint log_kids_re (rh : rhandler) (pid : Z) (r : rect) (l : list wtree) (sb : root * rbuf) : list (Z * rect) :=
   match l with
   | [] => []
   | c :: rest =>
     let ci := t_info c in
-    if negb (vis_now (fst sb) (w_id ci)) then log_kids_re rh r rest sb else
+    if negb (child_now (fst sb) pid (w_id ci)) then log_kids_re rh pid r rest sb else
+    if negb (vis_now (fst sb) (w_id ci)) then log_kids_re rh pid r rest sb else
     match r_intersect r (w_rect ci) with
     | Some ex =>
       let b1 := rb_translate (rb_clip_to (rb_save (snd sb)) ex) (top (w_rect ci)) (left (w_rect ci)) in
       let r' := r_translate ex (- top (w_rect ci)) (- left (w_rect ci)) in
       let sb2 := do_expose_re rh c r' (fst sb, b1) in
+      let b3 := rb_restore (snd sb2) in
       expose_log_re rh c r' (fst sb, b1) ++
-      log_kids_re rh r rest (fst sb2, rb_mask_rect (rb_restore (snd sb2)) (w_rect ci))
-    | None => log_kids_re rh r rest (fst sb, rb_mask_rect (snd sb) (w_rect ci))
+      log_kids_re rh pid r rest (fst sb2, if child_now (fst sb2) pid (w_id ci) then rb_mask_rect b3 (w_rect ci) else b3)
+    | None => log_kids_re rh pid r rest (fst sb, rb_mask_rect (snd sb) (w_rect ci))
     end
   end.
 
 Lemma expose_log_re_unfold rh i ch r sb :
-  expose_log_re rh (Node i ch) r sb = log_kids_re rh r ch sb ++ [(w_id i, r)].
+  expose_log_re rh (Node i ch) r sb = log_kids_re rh (w_id i) r ch sb ++ [(w_id i, r)].
 Proof.
   cbn [expose_log_re]. f_equal. revert sb.
   induction ch as [|c rest IH]; intros sb; [reflexivity|]. cbn [log_kids_re].
+  destruct (negb (child_now (fst sb) (w_id i) (w_id (t_info c)))); [apply IH|].
   destruct (negb (vis_now (fst sb) (w_id (t_info c)))); [apply IH|].
   destruct (r_intersect r (w_rect (t_info c))); [rewrite IH; reflexivity|apply IH].
 Qed.
@@ -82,7 +89,9 @@ Proof.
   apply (wtree_ind2 (fun t => forall r sb, P (fst sb) -> P (fst (do_expose_re rh t r sb)))).
   intros i ch IH r sb HP. rewrite do_expose_re_unfold. apply Hk.
   revert sb HP. induction IH as [|c rest Hc _ IHr]; intros sb HP; [exact HP|].
-  cbn [expose_kids_re]. destruct (negb (vis_now (fst sb) (w_id (t_info c)))); [apply IHr; exact HP|].
+  cbn [expose_kids_re].
+  destruct (negb (child_now (fst sb) (w_id i) (w_id (t_info c)))); [apply IHr; exact HP|].
+  destruct (negb (vis_now (fst sb) (w_id (t_info c)))); [apply IHr; exact HP|].
   apply IHr. cbn [fst].
   destruct (r_intersect r (w_rect (t_info c))) as [ex|]; [|exact HP].
   cbn [fst]. apply Hc. exact HP.
@@ -130,9 +139,19 @@ Qed.
 Lemma acts_along_none cfg lg s : acts_along cfg (fun _ => []) lg s = s.
 Proof. unfold acts_along. induction lg as [|e lg IH]; [reflexivity|]. cbn [fold_left run_acts]. exact IH. Qed.
 
-(* in every state P allows, the live visibility of every window of t is its own flag *)
+(* in every state P allows, every window of t has the visibility flag t says, and every entry
+   of a child list of t is a child of that window *)
 Definition vis_fixed (P : root -> Prop) (t : wtree) : Prop :=
-  forall s c, P s -> subtree c t -> vis_now s (t_id c) = w_vis (t_info c).
+  forall s, P s ->
+    (forall c, subtree c t -> vis_now s (t_id c) = w_vis (t_info c)) /\
+    (forall n c, subtree n t -> In c (t_kids n) -> child_now s (t_id n) (t_id c) = true).
+
+Lemma vis_fixed_kid P i ch c : vis_fixed P (Node i ch) -> In c ch -> vis_fixed P c.
+Proof.
+  intros H Hc s Hs. destruct (H s Hs) as [H1 H2]. split.
+  - intros c' Hc'. apply H1. eapply sub_kid; eassumption.
+  - intros n c' Hn Hc'. apply H2; [|exact Hc']. eapply sub_kid; eassumption.
+Qed.
 
 Section static.
   Variables (cfg : defects) (hnd : handler) (racts : Z -> list ract) (P : root -> Prop).
@@ -144,24 +163,28 @@ Section static.
       do_expose_re rh t r (s, b) = (acts_along cfg racts (expose_log t r) s, do_expose hnd t r b) /\
       expose_log_re rh t r (s, b) = expose_log t r.
 
-  Lemma kids_static r l :
+  Lemma kids_static pid r l :
     Forall static_at l ->
-    (forall s c c', P s -> In c l -> subtree c' c -> vis_now s (t_id c') = w_vis (t_info c')) ->
+    (forall c, In c l -> vis_fixed P c) ->
+    (forall s c, P s -> In c l -> child_now s pid (t_id c) = true) ->
     forall s b, P s ->
-      expose_kids_re rh r l (s, b) = (acts_along cfg racts (log_kids r l) s, expose_kids hnd r l b) /\
-      log_kids_re rh r l (s, b) = log_kids r l.
+      expose_kids_re rh pid r l (s, b) = (acts_along cfg racts (log_kids r l) s, expose_kids hnd r l b) /\
+      log_kids_re rh pid r l (s, b) = log_kids r l.
   Proof.
-    induction 1 as [|c rest Hc _ IH]; intros Hvis s b Hs.
+    induction 1 as [|c rest Hc _ IH]; intros Hvis Hkid s b Hs.
     - cbn [expose_kids_re log_kids_re log_kids expose_kids]. split; reflexivity.
-    - assert (Hvis' : forall s c0 c', P s -> In c0 rest -> subtree c' c0 ->
-                                      vis_now s (t_id c') = w_vis (t_info c')).
-      { intros s0 c0 c' H0 Hin Hsub. apply (Hvis s0 c0 c' H0); [right; exact Hin|exact Hsub]. }
-      assert (Hvc : vis_fixed P c).
-      { intros s0 c' H0 Hsub. apply (Hvis s0 c c' H0); [left; reflexivity|exact Hsub]. }
+    - assert (Hvis' : forall c0, In c0 rest -> vis_fixed P c0).
+      { intros c0 Hin. apply Hvis. right; exact Hin. }
+      assert (Hkid' : forall s0 c0, P s0 -> In c0 rest -> child_now s0 pid (t_id c0) = true).
+      { intros s0 c0 H0 Hin. apply Hkid; [exact H0|right; exact Hin]. }
+      assert (Hvc : vis_fixed P c) by (apply Hvis; left; reflexivity).
       cbn [expose_kids_re log_kids_re log_kids expose_kids fst snd].
+      assert (Ek : child_now s pid (w_id (t_info c)) = true).
+      { apply (Hkid s c Hs). left; reflexivity. }
       assert (Ev : vis_now s (w_id (t_info c)) = w_vis (t_info c)).
-      { apply (Hvis s c c Hs); [left; reflexivity|constructor]. }
-      rewrite Ev. destruct (negb (w_vis (t_info c))) eqn:Hv; [apply IH; assumption|].
+      { destruct (Hvc s Hs) as [H1 _]. apply (H1 c). constructor. }
+      rewrite Ek, Ev. cbn [negb].
+      destruct (negb (w_vis (t_info c))) eqn:Hv; [apply IH; assumption|].
       destruct (r_intersect r (w_rect (t_info c))) as [ex|] eqn:Hex.
       + destruct (Hc Hvc (r_translate ex (- top (w_rect (t_info c))) (- left (w_rect (t_info c)))) s
                      (rb_translate (rb_clip_to (rb_save b) ex) (top (w_rect (t_info c))) (left (w_rect (t_info c)))) Hs)
@@ -170,30 +193,81 @@ Section static.
         assert (Hs1 : P (acts_along cfg racts
                            (expose_log c (r_translate ex (- top (w_rect (t_info c))) (- left (w_rect (t_info c))))) s)).
         { apply (acts_along_keeps P cfg racts HP). exact Hs. }
-        destruct (IH Hvis' _ (rb_mask_rect (rb_restore (do_expose hnd c (r_translate ex (- top (w_rect (t_info c))) (- left (w_rect (t_info c))))
+        assert (Ek1 : child_now (acts_along cfg racts
+                           (expose_log c (r_translate ex (- top (w_rect (t_info c))) (- left (w_rect (t_info c))))) s)
+                                pid (w_id (t_info c)) = true).
+        { apply (Hkid _ c Hs1). left; reflexivity. }
+        rewrite Ek1.
+        destruct (IH Hvis' Hkid' _ (rb_mask_rect (rb_restore (do_expose hnd c (r_translate ex (- top (w_rect (t_info c))) (- left (w_rect (t_info c))))
                        (rb_translate (rb_clip_to (rb_save b) ex) (top (w_rect (t_info c))) (left (w_rect (t_info c))))))
                        (w_rect (t_info c))) Hs1) as [E3 E4].
         rewrite E3, E4, acts_along_app. split; reflexivity.
-      + cbn [fst snd]. apply IH; assumption.
+      + cbn [fst snd]. rewrite Ek. apply IH; assumption.
   Qed.
 
   Lemma do_expose_re_static : forall t, static_at t.
   Proof.
     apply (wtree_ind2 static_at). intros i ch IH Hvis r s b Hs.
     rewrite do_expose_re_unfold, expose_log_re_unfold, do_expose_unfold, expose_log_unfold.
-    destruct (kids_static r ch IH) with (s := s) (b := b) as [E1 E2].
-    - intros s0 c c' H0 Hin Hsub. apply (Hvis s0 c' H0). eapply sub_kid; eassumption.
+    destruct (kids_static (w_id i) r ch IH) with (s := s) (b := b) as [E1 E2].
+    - intros c Hin. apply (vis_fixed_kid P i ch c Hvis Hin).
+    - intros s0 c H0 Hin. destruct (Hvis s0 H0) as [_ H2].
+      apply (H2 (Node i ch) c); [constructor|exact Hin].
     - exact Hs.
     - rewrite E1, E2. split; [|reflexivity].
       unfold rh, re_handler. cbn [fst snd]. rewrite acts_along_app. reflexivity.
   Qed.
 End static.
 
-(* the tree of every allowed state is T0, whose ids are unique: visibility is read off T0 *)
-Lemma vis_fixed_tree T0 : NoDup (t_ids T0) -> vis_fixed (fun s => r_tree s = T0) T0.
+(* the subtree relation and the id list of WinInputProofs.v are those of this development *)
+Lemma subtree_sub n t : subtree n t -> WinInputProofs.sub n t.
 Proof.
-  intros Hnd s c Hs Hsub. unfold vis_now. rewrite Hs, (t_find_subtree c T0 Hsub Hnd). reflexivity.
+  induction 1 as [|i ch c Hin Hs IH]; [apply WinInputProofs.sub_refl|].
+  apply (WinInputProofs.sub_kid n c (Node i ch)); [exact Hin|exact IH].
 Qed.
+
+Lemma sub_subtree n t : WinInputProofs.sub n t -> subtree n t.
+Proof.
+  induction 1 as [t|x k t Hk Hs IH]; [constructor|].
+  destruct t as [i ch]. cbn [t_kids] in Hk. eapply sub_kid; eassumption.
+Qed.
+
+Lemma t_ids_conv t : WinInputProofs.t_ids t = t_ids t.
+Proof. reflexivity. Qed.
+
+(* a window of the tree is found in the tree, whatever the orphans *)
+Lemma f_find_tree st c :
+  NoDup (t_ids (r_tree st)) -> subtree c (r_tree st) -> f_find st (t_id c) = Some c.
+Proof.
+  intros Hnd Hc. unfold f_find, forest. cbn [first_some].
+  rewrite (t_find_subtree c (r_tree st) Hc Hnd). reflexivity.
+Qed.
+
+Lemma f_parent_tree st n c :
+  NoDup (t_ids (r_tree st)) -> subtree n (r_tree st) -> In c (t_kids n) ->
+  f_parent st (t_id c) = Some (t_id n).
+Proof.
+  intros Hnd Hn Hc. unfold f_parent, forest. cbn [first_some].
+  rewrite (WinInputProofs.t_parent_unique (r_tree st) n c Hnd (subtree_sub _ _ Hn) Hc). reflexivity.
+Qed.
+
+Lemma opt_is_refl x : opt_is (Some x) (Some x) = true.
+Proof. cbn [opt_is]. apply Z.eqb_refl. Qed.
+
+(* the tree of every allowed state is T0, whose ids are unique: flags and child lists are read
+   off T0 *)
+Lemma vis_fixed_sub T0 t :
+  NoDup (t_ids T0) -> subtree t T0 -> vis_fixed (fun s => r_tree s = T0) t.
+Proof.
+  intros Hnd Ht s Hs. subst T0. split.
+  - intros c Hc. unfold vis_now, node_now.
+    rewrite (f_find_tree s c Hnd (subtree_trans _ _ _ Hc Ht)). reflexivity.
+  - intros n c Hn Hc. unfold child_now.
+    rewrite (f_parent_tree s n c Hnd (subtree_trans _ _ _ Hn Ht) Hc). apply opt_is_refl.
+Qed.
+
+Lemma vis_fixed_tree T0 : NoDup (t_ids T0) -> vis_fixed (fun s => r_tree s = T0) T0.
+Proof. intros Hnd. apply vis_fixed_sub; [exact Hnd|constructor]. Qed.
 
 Lemma flush_rb_re_static cfg hnd racts T0 :
   NoDup (t_ids T0) ->
@@ -313,8 +387,7 @@ Proof.
   intros Hu Hsub.
   destruct (do_expose_re_static cfg hnd (fun _ => []) (fun s => r_tree s = r_tree st)
               (fun s id H => H) t) with (r := r) (s := st) (b := b) as [E _].
-  - intros s c Hs Hc. unfold vis_now. rewrite Hs.
-    rewrite (t_find_subtree c (r_tree st) (subtree_trans _ _ _ Hc Hsub) Hu). reflexivity.
+  - apply vis_fixed_sub; assumption.
   - reflexivity.
   - rewrite E, acts_along_none. reflexivity.
 Qed.
